@@ -437,14 +437,18 @@ func (e *env) genTrace(q *query, block bool) {
 			req := &evmtypes.QueryTraceBlockRequest{Txs: rec.EthMsgs, TraceConfig: tc.cfg, BlockNumber: rec.Height, BlockHash: hex.EncodeToString(rec.Hash), BlockTime: rec.Time, ProposerAddress: rec.Proposer}
 			q.Kind, q.Path, q.Data, q.Sub = "evm/TraceBlock", "/ethermint.evm.v1.Query/TraceBlock", mustMarshal(req), "recorded-block"
 			q.Desc["txs"] = len(rec.EthMsgs)
-			// (a trace replays the Ethereum transactions only: judged against the execution when no Cosmos-lane transaction
-			// stands ahead of any of them in the block)
-			all := true
+			// (a trace replays the Ethereum transactions only: an entry is judged against the execution when it and everything
+			// ahead of it was executed and no Cosmos-lane transaction stands ahead of it in the block)
+			prefix := 0
 			for k, x := range rec.EthExec {
-				all = all && x && rec.EthClean[k]
+				if !x || !rec.EthClean[k] {
+					break
+				}
+				prefix++
 			}
-			if all && strings.HasPrefix(tc.name, "struct-") {
+			if prefix > 0 && strings.HasPrefix(tc.name, "struct-") {
 				q.Desc["executed_gas_used_per_tx"] = append([]uint64{}, rec.EthGas...)
+				q.Desc["comparable_prefix"] = prefix
 			}
 		} else {
 			i := r.Intn(len(rec.EthMsgs))
